@@ -1378,6 +1378,14 @@ def _h_scenario(name: str, p):
     reg("service1_from_tc", lambda: {"tc": _h_tc(p)},
         lambda r: {"tm": getattr(pus1, _S1_CREATORS[_P(p, "sub")])(apid=_P(p, "apid2"), pus_tc=r["tc"], timestamp=bytes(_P(p, "tslen")))})
 
+    def tc_and_vp():
+        from spacepackets.ecss.pus_1_verification import VerificationParams
+        tc = _h_tc(p)
+        return {"tc": tc, "vp": VerificationParams(RequestId.from_pus_tc(tc))}
+    reg("service1_with_params", tc_and_vp,
+        lambda r: {"tm": Service1Tm(apid=_P(p, "apid2"), subservice=Subservice(_P(p, "sub")), timestamp=bytes(_P(p, "tslen")),
+                                    verif_params=r["vp"])})
+
     def add_tc(r):
         from spacepackets.ecss.pus_verificator import PusVerificator  # noqa
         if not r["v"].add_tc(r["tc"]):
@@ -1391,7 +1399,10 @@ def _h_scenario(name: str, p):
         from spacepackets.ecss.pus_verificator import PusVerificator
         return {"v": PusVerificator(), "tc": _h_tc(p)}
     reg("verificator_add_tc", verif_setup, add_tc)
-    reg("tc_unpack", lambda: {"tc": _h_tc(p)}, lambda r: {"dec": PusTc.unpack(bytes(r["tc"].pack()))})
+    def tc_and_raw():
+        tc = _h_tc(p)
+        return {"tc": tc, "raw": bytes(tc.pack())}        # pack() fills the telecommand's crc16 cache: part of the setup
+    reg("tc_unpack", tc_and_raw, lambda r: {"dec": PusTc.unpack(r["raw"])})
     if kind is not None:
         def ctor_setup():
             r = {"conf": _h_conf(p)}
@@ -1409,8 +1420,12 @@ def _h_scenario(name: str, p):
             getattr(r["conf"], _CONF_FIELDS[_P(p, "attr")]).value = _P(p, "v")
             return {}
         reg("pdu_then_conf_field", lambda: _h_conf_objs_pdu(kind, p), conf_field)
-        reg("two_pdus_one_conf", lambda: _h_conf_objs_pdu(kind, p),
-            lambda r: {"pdu2": _h_build_pdu(PDU_KINDS[_P(p, "kind2")], p, {"conf": r["conf"]})})
+        def second_pdu(r):
+            k2 = PDU_KINDS[_P(p, "kind2")]
+            r2 = {"conf": r["conf"]}
+            r2.update(_h_caller_objs(k2, p))          # parameter objects of its own
+            return {"pdu2": _h_build_pdu(k2, p, r2)}
+        reg("two_pdus_one_conf", lambda: _h_conf_objs_pdu(kind, p), second_pdu)
 
         def holder_setup():
             from spacepackets.cfdp.pdu.helper import PduHolder
@@ -1436,6 +1451,9 @@ def _h_scenario(name: str, p):
             arg = None if v == 0 else EntityIdTlv(bytes([9]) * v)
             r["pdu"].fault_location = arg
             return {} if arg is None else {"arg": arg}
+        if which == 3:
+            r["pdu"].file_store_responses = None          # the setter stores a new empty list
+            return {}
         arg = _h_resps(v)
         r["pdu"].file_store_responses = arg
         return {"arg": arg}
@@ -1467,8 +1485,14 @@ def _eval_path(roots: Dict[str, Any], path: str):
         return None
     x = roots[segs[0]]
     for s in segs[1:]:
-        if not _is_object(x) or isinstance(x, list):
+        if not _is_object(x):
             return None
+        if isinstance(x, list):
+            # `lst[i]` is written as the path segment `i`
+            if not s.isdigit() or int(s) >= len(x):
+                return None
+            x = x[int(s)]
+            continue
         try:
             x = getattr(x, s)
         except AttributeError:
@@ -1502,15 +1526,17 @@ def _hview(x):
     if isinstance(x, PusTmSecondaryHeader):
         return [int(x.service), int(x.subservice), int(x.message_counter), int(x.dest_id), int(x.spacecraft_time_ref), hx(x.timestamp)]
     if isinstance(x, PusTc):
-        return [_v_sph(x.sp_header), _hview(x.pus_tc_sec_header), hx(x.app_data)]
+        return [_v_sph(x.sp_header), _hview(x.pus_tc_sec_header), hx(x.app_data), x.crc16 is None]
     if isinstance(x, PusTm):
-        return [_v_sph(x.sp_header), _hview(x.pus_tm_sec_header), hx(x.tm_data)]
+        return [_v_sph(x.sp_header), _hview(x.pus_tm_sec_header), hx(x.tm_data), x.crc16 is None]
     if isinstance(x, SpacePacket):
         return [_v_sph(x.sp_header), _hview(x.sec_header), _hview(x.user_data)]
     if isinstance(x, RequestId):
         return _v_reqid(x)
     if isinstance(x, Service1Tm):
         return [_v_reqid(x.tc_req_id), _hview(x.pus_tm)]
+    if type(x).__name__ == "VerificationParams":
+        return [_v_reqid(x.req_id), x.step_id is None, x.failure_notice is None]
     if isinstance(x, UnsignedByteField):
         return _v_field(x)
     if isinstance(x, PduConfig):
@@ -2010,14 +2036,17 @@ def _pdu_paths(n, kind):
     if kind != "filedata":
         out += [f"{n}.pdu_file_directive", f"{n}.pdu_file_directive.pdu_header", f"{n}.pdu_file_directive.pdu_conf"]
     out += {"nak": [f"{n}.segment_requests"], "eof": [f"{n}.fault_location"],
-            "finished": [f"{n}.finished_params", f"{n}.file_store_responses", f"{n}.fault_location"],
-            "metadata": [f"{n}.params", f"{n}.options"], "filedata": [f"{n}.segment_metadata"]}.get(kind, [])
+            "finished": [f"{n}.finished_params", f"{n}.file_store_responses", f"{n}.fault_location", f"{n}.file_store_responses.0",
+                         f"{n}.file_store_responses.1"],
+            "metadata": [f"{n}.params", f"{n}.options", f"{n}.options.0"], "filedata": [f"{n}.segment_metadata"]}.get(kind, [])
     return out
 
 
 def _caller_paths(kind):
-    return {"nak": ["segs"], "eof": ["fl"], "finished": ["params", "params.file_store_responses", "params.fault_location"],
-            "metadata": ["params", "options"], "filedata": ["params", "params.segment_metadata"]}.get(kind, [])
+    return {"nak": ["segs"], "eof": ["fl"],
+            "finished": ["params", "params.file_store_responses", "params.fault_location", "params.file_store_responses.0",
+                         "params.file_store_responses.1"],
+            "metadata": ["params", "options", "options.0"], "filedata": ["params", "params.segment_metadata"]}.get(kind, [])
 
 
 def _alias_paths(name: str, kind: Optional[str], p) -> List[str]:
@@ -2035,15 +2064,17 @@ def _alias_paths(name: str, kind: Optional[str], p) -> List[str]:
         "tc_from_composite": _hdr_paths("hdr") + ["sec"] + TC_PATHS,
         "service1_from_tc": TC_PATHS + S1_PATHS,
         "verificator_add_tc": TC_PATHS + _rid_paths("key"),
+        "service1_with_params": TC_PATHS + S1_PATHS + ["vp"] + _rid_paths("vp.req_id"),
         "tc_unpack": TC_PATHS + [q.replace("tc", "dec", 1) for q in TC_PATHS],
         "pdu_ctor": cp, "pdu_then_conf_scalar": cp, "pdu_then_conf_field": cp,
         "two_pdus_one_conf": cp + _pdu_paths("pdu2", PDU_KINDS[_P(p, "kind2")]),
         "holder_assign": cp + ["holder", "holder.pdu", "holder.pdu.pdu_header"],
-        "pdu_unpack": cp + (_pdu_paths("dec", kind) if kind else []),
+        # (the decoded filestore responses are not cells of the model's decoder result: no element paths for them)
+        "pdu_unpack": cp + ([q for q in _pdu_paths("dec", kind) if not q.startswith("dec.file_store_responses.")] if kind else []),
         "finished_success_pdu": _conf_paths("conf") + _pdu_paths("pdu", "finished"),
         "factory_twice": [x for n in ("a", "b") for x in (_conf_paths(n) if _P(p, "which") == 3 else
                                                           [n, f"{n}.file_store_responses", f"{n}.fault_location", f"{n}.segment_metadata"])],
-        "finished_set": _conf_paths("conf") + _caller_paths("finished") + _pdu_paths("pdu", "finished") + ["arg"],
+        "finished_set": _conf_paths("conf") + _caller_paths("finished") + _pdu_paths("pdu", "finished") + ["arg", "arg.0"],
         "filedata_set": _conf_paths("conf") + _caller_paths("filedata") + _pdu_paths("pdu", "filedata") + ["arg"],
     }[name]
 
@@ -2101,6 +2132,7 @@ def alias_lines(rng: random.Random, thorough: bool) -> List[Dict[str, Any]]:
             add("sp_then_tm_set", set=which, v=v, apid=b["apid"], dlen=b["dlen"])
         for sub in (1, 3, 7):
             add("service1_from_tc", sub=sub)
+            add("service1_with_params", sub=sub)
         for k, kind in enumerate(PDU_KINDS):
             subs = {"ack": [{"acked": 4}, {"acked": 5}], "nak": [{"segs_none": 0}, {"segs_none": 1}], "eof": [{"fault": 0}, {"fault": 1}],
                     "finished": [{"fault": 0, "nresp": 0}, {"fault": 1, "nresp": 2}], "metadata": [{"opts": 0}, {"opts": 1}],
@@ -2119,8 +2151,8 @@ def alias_lines(rng: random.Random, thorough: bool) -> List[Dict[str, Any]]:
                 b = _alias_base(rng)
                 cur = [b["src_v"], b["dst_v"], b["seq_v"]][attr]
                 add("pdu_then_conf_field", kind=k, attr=attr, v=(cur + 1) % 256, src_v=b["src_v"], dst_v=b["dst_v"], seq_v=b["seq_v"])
-            for k2 in range(4):
-                add("two_pdus_one_conf", kind=k, kind2=k2, segs_none=1 if k2 == 3 and kind != "nak" else 0)
+            for k2 in range(8):
+                add("two_pdus_one_conf", kind=k, kind2=k2)
             add("holder_assign", kind=k)
         for crc in (0, 1):
             for large in (0, 1):
@@ -2134,6 +2166,8 @@ def alias_lines(rng: random.Random, thorough: bool) -> List[Dict[str, Any]]:
                 add("finished_set", kind=5, set=1, v=v, fault=fault, cond=4)
             for v in (0, 1, 3):
                 add("finished_set", kind=5, set=2, v=v, fault=fault)
+            for nresp in (0, 2):
+                add("finished_set", kind=5, set=3, v=0, fault=fault, nresp=nresp)
         for meta in (0, 1):
             b = _alias_base(rng)
             add("filedata_set", kind=7, set=0, v=b["dlen"] + 1, dlen=b["dlen"], meta=meta)
@@ -2167,13 +2201,16 @@ class C11(Prop):
                        "{optional caller objects present / absent} x {every modelled setter / configuration attribute}")
     _trusted_static = [
         "object identity: the aliasing clauses ('the caller's objects are not modified', request ID / space-packet view are "
-        "snapshots, factory results are independent) are theorems over the object-graph model Model/Heap.lean (Props/C11Heap.lean: "
-        "frame lemma, write sets of every constructor / factory / decoder, separation for all setter sequences, and the sharing "
-        "that exists stated as it is); that the model allocates, stores and writes where the Python code does is OBSERVED, not "
-        "proved: op heap_alias compares the alias graph the model predicts for every scenario x parameter variant with `is` and "
-        "deep value snapshots on the real objects, for the listed public access paths only (rule: every pair the model separates "
-        "must be two objects, every modified object must be one the model writes; more separation / fewer writes than predicted "
-        "are information). CPython object identity semantics (`is`, copy.copy, copy.deepcopy, dataclass default_factory) are trusted",
+        "snapshots, factory results are independent, what each constructor keeps of the caller's objects) are theorems over the "
+        "object-graph model Model/Heap.lean (Props/C11Heap.lean: 47 general theorems - frame lemmas, write sets of every constructor / "
+        "factory / decoder, to_space_packet writes only the packet's own crc16 cache, separation and value snapshot for all TC / TM "
+        "setter sequences and every depth, the alias relation of the returned PDU to the caller's PduConfig, keeps-caller-object "
+        "theorems, closure preservation - and 3 evaluated instances); that the model allocates, stores and writes where the Python "
+        "code does is OBSERVED, not proved: op heap_alias compares the alias graph the model predicts for every scenario x parameter "
+        "variant with `is` and deep value snapshots on the real objects, for the listed public access paths only (rule: every pair "
+        "the model separates must be two objects, every modified object must be one the model writes; more separation / fewer "
+        "writes than predicted are information). CPython object identity semantics (`is`, copy.copy, copy.deepcopy, dataclass "
+        "default_factory) are trusted",
         "further value-level evidence for the same clause: value snapshots of every caller-supplied PduConfig / params dataclass / "
         "TLV list / bytes before and after constructor and pack(); bystander objects built from the same PduConfig object "
         "re-observed after every setter call on another object",
@@ -2182,9 +2219,9 @@ class C11(Prop):
         "checked on the real objects)",
     ]
     assumptions = ["setter arguments are of the documented types (octet strings, enum members, TLV objects, lists)",
-                   "heap model: caches (_crc16, filestore TLV cache) and objects unreachable when a call returns are not cells; "
+                   "heap model: the value of the _crc16 cache (only None / set), the filestore TLV cache and objects unreachable when a call returns are not modelled; "
                    "length scalars only record that a setter rewrites them (their values are Model/Mutation.lean's subject); "
-                   "views are taken to depth 8 (deepest modelled chain: 4 attribute steps)"]
+                   "theorems hold for every depth n of reach / view; the driver evaluates views to depth 8 (deepest modelled chain: 4)"]
 
     @property
     def trusted_base(self):
